@@ -358,7 +358,12 @@ func (m *ldbManager) Add(transaction Transaction) error {
 	m.changes.Lock()
 	defer m.changes.Unlock()
 
-	frontierIdentifier := GetFrontierIdentifier(db)
+	snapshot, err := m.ldb.GetSnapshot()
+	if err != nil {
+		return err
+	}
+	defer snapshot.Release()
+	frontierIdentifier := GetFrontierIdentifier(NewLevelDBSnapshotWrapper(snapshot).Subset(frontierByte))
 
 	if previous == frontierIdentifier {
 		if err := m.ldb.Put(common.JoinBytes(patchByte, common.Uint64ToBytes(identifier.Height)), patch.Dump(), nil); err != nil {
